@@ -312,6 +312,16 @@ pub fn gen(rng: &mut Rng, quick: bool) -> Content {
         let l = entries.len() - 1;
         entries[l].1 = String::new();
     }
+    if n >= 1 && rng.chance(1, 25) && !entries.iter().any(|(k, _)| k.is_empty()) {
+        // the empty string is a key like any other
+        let i = rng.below(entries.len());
+        entries[i].0 = String::new();
+    }
+    if n >= 1 && rng.chance(1, 10) {
+        // CR LF pairs, a lone CR, LF CR: all distinct texts
+        let i = rng.below(entries.len());
+        entries[i].1 = rng.pick(&["a\r\nb", "\r\n", "a\rb\n", "x\n\ry", "line1\r\nline2\r\n"]).to_string();
+    }
     if rng.chance(1, 50) {
         // text outside Shift-JIS where the file needs Shift-JIS: the title, a key, or a legacy message
         let u = rng.pick(&crate::refs::strings::UNENCODABLE).to_string();
